@@ -3733,12 +3733,12 @@ def gui_receive_loop(ctx, mir, stats):
         s.add(z3.Or(ws[0] == 0, ls[0] == 0)); stats.queries += 1
         if s.check() == z3.sat:
             conds_ok = False
-    obs.append({"id": "receive-loop:guarded-by-readiness-and-flag", "ok": conds_ok and len(early) >= 2, "functions": [f.name], "where": f.name, "needs_native": True, "native": None,
+    obs.append({"id": "receive-loop:guarded-by-readiness-and-flag", "ok": conds_ok and len(early) >= 2, "functions": [f.name], "where": f.name, "needs_native": True, "native": None if (conds_ok and len(early) >= 2) else native,
                 "detail": "the client is locked and read only when wait_for_fd returned true and the shared flag is set; each of them false ends the thread (%d exits before the lock)" % len(early) if conds_ok and len(early) >= 2 else
                 "the loop can lock/read although wait_for_fd or the stop flag said no, or has no exit on them"})
     # O4: the guard is dropped on every path between the read and the next wait / the return
     unreleased = [p.trace[-6:] for p, _b in looped if _b == L and after_read(p) and not released(p)] + [p.trace[-6:] for p in se.finished if after_read(p) and not released(p)]
-    obs.append({"id": "receive-loop:lock-released-each-iteration", "ok": not unreleased, "functions": [f.name], "where": f.name, "needs_native": True, "native": None,
+    obs.append({"id": "receive-loop:lock-released-each-iteration", "ok": not unreleased, "functions": [f.name], "where": f.name, "needs_native": True, "native": None if not unreleased else native,
                 "detail": "the client mutex guard is dropped on every path from the read to the next wait_for_fd and to the end of the thread" if not unreleased else "paths keep the guard: %s" % unreleased[:2]})
     # O6: the wait on the raw descriptor is entered after a successful read only when the TLS layer reports no buffered plaintext
     coalesced = None
@@ -3814,7 +3814,7 @@ def gui_receive_loop(ctx, mir, stats):
                 okcb = False
         elif n != 0:
             okcb = False
-    obs.append({"id": "receive-loop:every-bitmap-forwarded-once", "ok": okcb and seen_bitmap, "functions": [cb.name], "where": cb.name, "needs_native": True, "native": None,
+    obs.append({"id": "receive-loop:every-bitmap-forwarded-once", "ok": okcb and seen_bitmap, "functions": [cb.name], "where": cb.name, "needs_native": True, "native": None if (okcb and seen_bitmap) else native,
                 "detail": "the read callback sends the payload of every RdpEvent::Bitmap on the channel exactly once (in the order RdpClient::read delivers them) and nothing else" if okcb and seen_bitmap else
                 "the callback does not forward each bitmap event exactly once"})
     return obs
